@@ -385,7 +385,7 @@ mod verif_c03_packet {
         kani::cover!(off0 == 7 && matches!(len, Some((20, 8))) && n == M, "C03.packet.payload.reach_len_20_in_8_byte_varint");
         kani::cover!(off0 == 0 && matches!(len, Some((19, 1))) && n == 20, "C03.packet.payload.reach_under_sampling_19");
         kani::cover!(matches!(len, Some((21, 1))) && n == off0 + 1 + 21 + 3, "C03.packet.payload.reach_coalesced_rest");
-        kani::cover!(matches!(len, Some((pl, 8))) if pl >= (1 << 61), "C03.packet.payload.reach_huge_length");
+        kani::cover!(matches!(len, Some((pl, 8)) if pl >= (1 << 61)), "C03.packet.payload.reach_huge_length");
         kani::cover!(remain_len == 0, "C03.packet.payload.reach_nothing_left");
     }
 
